@@ -82,6 +82,42 @@ class Func:
         self._loops = loops
         return loops
 
+    def idoms(self):
+        """immediate dominator of each block (None for the entry)"""
+        if getattr(self, '_idom', None) is None:
+            dom = self.dominators()
+            idom = {}
+            for b in range(len(self.blocks)):
+                strict = dom[b] - {b}
+                best = None
+                for d in strict:
+                    # the immediate dominator is the strict dominator dominated by all other strict dominators
+                    if all(o in dom[d] for o in strict):
+                        best = d
+                idom[b] = best
+            self._idom = idom
+        return self._idom
+
+    def reaching_ref(self, name, b, i):
+        """most recent reference to source variable `name` before instruction i of block b
+        (DebugRef or a phi commented with the name), walking up the dominator tree"""
+        idom = self.idoms()
+        first = True
+        seen = set()
+        while b is not None and b not in seen:
+            seen.add(b)
+            instrs = self.blocks[b]['instrs']
+            start = (i - 1) if first else len(instrs) - 1
+            for j in range(min(start, len(instrs) - 1), -1, -1):
+                ins = instrs[j]
+                if ins['op'] == 'DebugRef' and ins.get('ident') == name:
+                    return ins['args'][0], ins.get('isaddr', False)
+                if ins['op'] == 'Phi' and ins.get('comment') == name:
+                    return {'k': 'reg', 'n': ins['reg'], 't': ins['t']}, False
+            first = False
+            b = idom.get(b)
+        return None
+
     def defs(self):
         """register -> (block, index, instr)"""
         if self._defs is None:
